@@ -137,7 +137,8 @@ func rexpr(e N) string {
 			s := st.(N)
 			name := s["name"].(string)
 			if lit, _ := s["lit"].(bool); lit {
-				name = quoteStr(name, false)
+				raw, _ := s["raw"].(bool)
+				name = quoteStr(name, raw)
 			}
 			parts = append(parts, "@"+name+"("+rlist(list(s["args"]))+")")
 		}
